@@ -93,6 +93,19 @@ func compress(ext string, data []byte) []byte {
 	return out
 }
 
+// compressParts: the data cut in two at `cut` (0 < cut < len), each part compressed on its own
+// and the results concatenated: a multi-member gzip file (RFC 1952 2.2), concatenated xz /
+// bzip2 streams, several zstd frames.  Every decoder involved reads these as one stream.
+func compressParts(ext string, data []byte, cut int) []byte {
+	switch ext {
+	case ".gz", ".xz", ".bz2", ".zst":
+		if cut > 0 && cut < len(data) {
+			return append(append([]byte{}, compress(ext, data[:cut])...), compress(ext, data[cut:])...)
+		}
+	}
+	return compress(ext, data)
+}
+
 type tarFile struct {
 	Name string
 	Body string
@@ -355,6 +368,8 @@ type debModel struct {
 	DataExt     string
 	Extra       []arMember
 	BinaryText  string
+	CtlCut      int // > 0: the control tar is compressed in two parts cut here (see compressParts)
+	DataCut     int
 }
 
 func genDebModel(r *core.Rand) debModel {
@@ -382,6 +397,22 @@ func genDebModel(r *core.Rand) debModel {
 		m.DataFiles = append(m.DataFiles, tarFile{Name: "./usr/" + r.Pick([]string{"bin/foo", "share/doc/foo/copyright", "lib/libfoo.so.1", "x"}) + strconv.Itoa(n), Body: r.Str("abc\n\x00", r.Intn(400))})
 	}
 	m.CtlExt, m.DataExt = r.Pick(compExts), r.Pick(compExts)
+	if r.Chance(1, 5) {
+		// compressed in two members / streams / frames: cut on a tar block boundary (where a
+		// reader that stops after the first part sees a clean end of archive) or anywhere
+		cutOf := func(n int) int {
+			if r.Bool() {
+				return 512 * r.Range(1, n/512)
+			}
+			return r.Range(1, n-1)
+		}
+		if r.Bool() {
+			m.CtlCut = cutOf(len(buildTar(m.CtlFiles)))
+		}
+		if m.CtlCut == 0 || r.Bool() {
+			m.DataCut = cutOf(len(buildTar(m.DataFiles)))
+		}
+	}
 	for n := r.Intn(3); n > 0 && r.Chance(1, 2); n-- {
 		m.Extra = append(m.Extra, arMember{Name: r.Pick([]string{"_gpgbuilder", "_extra", "foo", "_gpgorigin"}) + strconv.Itoa(n), Data: []byte(r.Str("xyz", r.Intn(20)))})
 	}
@@ -390,8 +421,8 @@ func genDebModel(r *core.Rand) debModel {
 
 func (m debModel) members() []arMember {
 	ms := []arMember{{Name: "debian-binary", TS: "0", UID: "0", GID: "0", Mode: "100644", Data: []byte(m.BinaryText)},
-		{Name: "control.tar" + m.CtlExt, TS: "0", UID: "0", GID: "0", Mode: "100644", Data: compress(m.CtlExt, buildTar(m.CtlFiles))},
-		{Name: "data.tar" + m.DataExt, TS: "0", UID: "0", GID: "0", Mode: "100644", Data: compress(m.DataExt, buildTar(m.DataFiles))}}
+		{Name: "control.tar" + m.CtlExt, TS: "0", UID: "0", GID: "0", Mode: "100644", Data: compressParts(m.CtlExt, buildTar(m.CtlFiles), m.CtlCut)},
+		{Name: "data.tar" + m.DataExt, TS: "0", UID: "0", GID: "0", Mode: "100644", Data: compressParts(m.DataExt, buildTar(m.DataFiles), m.DataCut)}}
 	return append(ms, m.Extra...)
 }
 
@@ -572,6 +603,21 @@ var prevDeb struct {
 	sync.Mutex
 	data   []byte
 	digest string
+	older  []byte
+}
+
+// emitDebLife: three fresh well-formed packages through law-deblife
+func emitDebLife(g *core.G) {
+	var ds [][]byte
+	var ms []debModel
+	for i := 0; i < 3; i++ {
+		m := genDebModel(g.R)
+		m.CtlExt, m.DataExt = g.R.Pick([]string{".gz", ".gz", ".zst", ".xz", ""}), g.R.Pick([]string{".gz", ".gz", ".zst", ".xz", ""})
+		m.Extra = nil
+		ms = append(ms, m)
+		ds = append(ds, buildAr(m.members()))
+	}
+	g.Emit("law-deblife", core.Hex(string(ds[0])), core.Hex(string(ds[1])), core.Hex(string(ds[2])), ms[1].dataDigest(), ms[2].dataDigest())
 }
 
 func emitDebModel(g *core.G, m debModel) {
@@ -580,7 +626,11 @@ func emitDebModel(g *core.G, m debModel) {
 	prevDeb.Lock()
 	if prevDeb.data != nil {
 		g.Emit("law-debtwo", core.Hex(string(prevDeb.data)), core.Hex(string(data)), prevDeb.digest, m.dataDigest())
+		if prevDeb.older != nil {
+			g.Emit("law-deblife", core.Hex(string(prevDeb.older)), core.Hex(string(prevDeb.data)), core.Hex(string(data)), prevDeb.digest, m.dataDigest())
+		}
 	}
+	prevDeb.older = prevDeb.data
 	prevDeb.data, prevDeb.digest = data, m.dataDigest()
 	prevDeb.Unlock()
 	emitDeb(g, data)
@@ -619,6 +669,9 @@ func streamDebfuzz(g *core.G) {
 		}
 		emitDeb(g, data)
 		g.Emit("law-debsafe", core.Hex(string(data)))
+		if i%20 == 0 {
+			emitDebLife(g)
+		}
 	}
 }
 
@@ -705,6 +758,9 @@ func streamDebsig(g *core.G) {
 		ms = append(ms, arMember{Name: "_gpg" + role, TS: "0", UID: "0", GID: "0", Mode: "100644", Data: sig})
 		good := buildAr(ms)
 		krIn, krOut, krEmpty := []*openpgp.Entity{ks[0], ks[1]}, []*openpgp.Entity{ks[2]}, []*openpgp.Entity{}
+		if i%10 == 0 {
+			emitDebLife(g)
+		}
 		emitDebsig(g, good, role, krIn)
 		g.Emit("law-debsig", core.Hex(string(good)), core.Hex(role), core.Hex(serializeKeyring(krIn)), "accept", fmt.Sprintf("ok:%016x", signer.PrimaryKey.KeyId))
 		g.Emit("law-debsig-seq", core.Hex(string(good)), core.Hex(role), core.Hex(serializeKeyring(krIn)), core.Hex(serializeKeyring(krOut)))
@@ -830,6 +886,59 @@ func init() {
 		}
 		return "ok"
 	}
+	// law (C14, C15, C16): what a handle did before it was closed - closed once or, as LoadFile's two
+	// documented routes allow, twice - has no influence on packages loaded afterwards: two later
+	// packages, open at the same time and read in turns, show their own control data and payload.
+	// args: A, B, C (bytes), data digests of B and C
+	debImpl["law-deblife"] = func(a []string) string {
+		f, err := os.CreateTemp("", "verif-*.deb")
+		if err != nil {
+			return "ok"
+		}
+		defer os.Remove(f.Name())
+		f.Write([]byte(core.MustUnHex(a[0])))
+		f.Close()
+		if d, closer, err := deb.LoadFile(f.Name()); err == nil {
+			debDataDigest(d)
+			closer()
+			d.Close()
+		}
+		bB, bC := []byte(core.MustUnHex(a[1])), []byte(core.MustUnHex(a[2]))
+		wantB, dB := loadDebDump(bB)
+		if dB == nil {
+			return "FAIL load B: " + wantB
+		}
+		wantC, dC := loadDebDump(bC)
+		if dC == nil {
+			return "FAIL load C: " + wantC
+		}
+		defer dB.Close()
+		defer dC.Close()
+		// read in turns: one entry of B, all of C, the rest of B
+		var eB [][2]string
+		if h, err := dB.Data.Next(); err == nil {
+			body, _ := io.ReadAll(dB.Data)
+			eB = append(eB, [2]string{h.Name, string(body)})
+		}
+		gC := debDataDigest(dC)
+		for {
+			h, err := dB.Data.Next()
+			if err != nil {
+				break
+			}
+			body, _ := io.ReadAll(dB.Data)
+			eB = append(eB, [2]string{h.Name, string(body)})
+		}
+		if gB := listingDigest(eB); gB != a[3] || gC != a[4] {
+			return fmt.Sprintf("FAIL after an earlier package was closed twice, two open packages list %s %s, packaged: %s %s", gB, gC, a[3], a[4])
+		}
+		if again, d := loadDebDump(bB); again != wantB {
+			return "FAIL control data of B differs on reload: " + wantB + " / " + again
+		} else if d != nil {
+			d.Close()
+		}
+		return "ok"
+	}
 	// law (C14): two packages open at the same time do not disturb each other's data stream
 	debImpl["law-debtwo"] = func(a []string) string {
 		da, err := deb.Load(bytes.NewReader([]byte(core.MustUnHex(a[0]))), "a.deb")
@@ -857,7 +966,7 @@ func debReadable(op string, a []string) string {
 	switch op {
 	case "deb":
 		return fmt.Sprintf("deb.Load(%d bytes: %q…)", len(debBytes(a)), clipStr(string(debBytes(a)), 120))
-	case "law-deb", "law-debsafe", "debsig", "law-debsig":
+	case "law-deb", "law-debsafe", "debsig", "law-debsig", "law-deblife", "law-debtwo":
 		s := core.MustUnHex(a[0])
 		return fmt.Sprintf("%s(%d bytes: %q…) %v", op, len(s), clipStr(s, 120), a[1:min(len(a), 2)])
 	}
@@ -894,14 +1003,14 @@ func init() {
 	core.Register(&core.Property{
 		ID: "C14", PropsModule: "GoDebian.Props.C14", Facts: debFacts,
 		Streams: []core.Stream{{Name: "debtool", Gen: streamDebTool, Domain: "packages built by the real dpkg-deb (-Zgzip / xz / zstd / none) from a scratch tree: model vs deb.Load and law-debtool (packaged control fields, data extension, packaged file present in the data stream)"}, {Name: "deb", Gen: streamDeb,
-			Domain: "package models (control fields from the Debian field table, control-tar file order and name spelling of ./control, 0-3 data files, extra and underscore members) x all 6x6 compression combinations (none, gzip, xz, bzip2, lzma, zstd; encoders: Go gzip, klauspost zstd, xz/bzip2 CLI) built with the harness's ar/tar writers; wrong format versions, missing members, control file missing from the tar; model (with the real decompressor+tar answers on the byte ranges the model selects) vs deb.Load x5; law-deb: control fields, extensions, member index and data-tar listing equal the package model"}},
+			Domain: "package models (control fields from the Debian field table, control-tar file order and name spelling of ./control, 0-3 data files, extra and underscore members) x all 6x6 compression combinations (none, gzip, xz, bzip2, lzma, zstd; encoders: Go gzip, klauspost zstd, xz/bzip2 CLI; 1/5 compressed as two concatenated members / streams / frames cut on a tar block boundary or anywhere) built with the harness's ar/tar writers; wrong format versions, missing members, control file missing from the tar; model (with the real decompressor+tar answers on the byte ranges the model selects) vs deb.Load x5; law-deb: control fields, extensions, member index and data-tar listing equal the package model; law-debtwo / law-deblife: two packages open at once and read in turns, after an earlier handle was closed twice (LoadFile's closer and Deb.Close)"}},
 		Impl: debImpl, Readable: debReadable, TrustedBase: append(append([]string{}, tb...), "gzip/bzip2/xz/lzma/zstd decoders and archive/tar (parameters: evaluated for real on the ranges the model selects; their agreement with the encoders is exercised, not proved)"),
 	})
 	core.Register(&core.Property{
 		ID: "C15", PropsModule: "GoDebian.Props.C15", Facts: debFacts,
 		Streams: []core.Stream{
 			{Name: "arfuzz", Gen: streamArfuzz, Domain: "structured corruption of valid archives: each header column set to negative / huge / blank / non-numeric / signed text, size larger or smaller than the data, truncation at every offset, duplicated and reordered members, each header magic byte flipped independently, damaged global magic, random byte flips, raw bytes; model vs implementation (entries, sizes, delivered bytes, terminal outcome, steps) + law-arsafe (step bound, header magic present, size >= 0, bytes delivered = size, two runs agree)"},
-			{Name: "debfuzz", Gen: streamDebfuzz, Domain: "hostile .deb archives with stored or gzip control/data members: decoy and duplicate members, corrupted payloads, all the ar corruptions; model vs deb.Load (x5) and law-debsafe (no panic, no hang, same outcome on every load)"}},
+			{Name: "debfuzz", Gen: streamDebfuzz, Domain: "hostile .deb archives with stored or gzip control/data members: decoy and duplicate members, corrupted payloads, all the ar corruptions; model vs deb.Load (x5) and law-debsafe (no panic, no hang, same outcome on every load); law-deblife (handles closed twice before later loads)"}},
 		Impl: debImpl, Readable: debReadable, TrustedBase: tb,
 	})
 	core.Register(&core.Property{
